@@ -256,6 +256,16 @@ func crashScenarios(r *rng, tier string) []crashScenario {
 			}
 			p.dud("", "stage", "add", "t.yaml", "u.yaml")
 		}),
+		mk("commit of a stage whose own file is a link into the cache", []string{"commit", "train.yaml"}, nil, func(p *Project, r *rng) {
+			// train.yaml is a generated pipeline step: an output of gen.yaml, committed with the link strategy
+			must(os.WriteFile(filepath.Join(p.Root, "model.bin"), r.bytes(50), 0o644))
+			p.writeStage("train.yaml", &StageRec{Out: []Art{{Path: "model.bin"}}})
+			p.writeStage("gen.yaml", &StageRec{Out: []Art{{Path: "train.yaml"}}})
+			p.dud("", "stage", "add", "gen.yaml", "train.yaml")
+			p.dud("", "commit")
+			os.Remove(filepath.Join(p.Root, "model.bin"))
+			must(os.WriteFile(filepath.Join(p.Root, "model.bin"), r.bytes(60), 0o644))
+		}),
 		mk("commit two-stage pipeline", []string{"commit"}, nil, func(p *Project, r *rng) {
 			must(os.WriteFile(filepath.Join(p.Root, "src.txt"), []byte("source"), 0o644))
 			must(os.WriteFile(filepath.Join(p.Root, "mid.txt"), []byte("middle"), 0o644))
